@@ -392,12 +392,12 @@ Proof.
     eapply Nat.lt_le_trans; [exact E|apply nth_bump_le].
 Qed.
 
-(* the implementation differs only in what a refused raw Connect does to the in-flight slot, which is
-   empty in a quiescent state: outside ODuring the two coincide *)
+(* the code before fix 8f6edb6 differed only in what a refused raw Connect did to the in-flight slot,
+   which is empty in a quiescent state: outside ODuring the two coincide *)
 Definition no_during (ops : list op) : Prop :=
   Forall (fun o => match o with ODuring _ _ => False | _ => True end) ops.
 
-Lemma step_impl_eq_spec e o s :
+Lemma step_prefix_eq_spec e o s :
   quiet s -> match o with ODuring _ _ => False | _ => True end -> step false e o s = step true e o s.
 Proof.
   intros Hq Ho. unfold step. destruct (alive s); cbn [negb]; [|reflexivity].
@@ -447,26 +447,30 @@ Proof.
   - apply run_ops_spec_ok, login_quiet.
 Qed.
 
-Lemma run_ops_impl_eq e n : forall ops s,
+Lemma run_ops_prefix_eq e n : forall ops s,
   quiet s -> no_during ops -> run_ops false e n ops s = run_ops true e n ops s.
 Proof.
   induction ops as [|o r IH]; intros s Hq Hn; [reflexivity|].
   inversion Hn as [|? ? Ho Hr]; subst.
-  cbn [run_ops]. rewrite (step_impl_eq_spec e o s Hq Ho).
+  cbn [run_ops]. rewrite (step_prefix_eq_spec e o s Hq Ho).
   pose proof (step_spec_quiet e o s Hq) as H.
   destruct (step true e o s) as [s1 rs]. cbn [fst] in H.
   rewrite (IH s1 H Hr). reflexivity.
 Qed.
 
-Theorem impl_eq_spec_off_trigger e n ops :
-  no_during ops -> run false e n ops = run true e n ops.
+Theorem prefix_eq_impl_off_trigger e n ops :
+  no_during ops -> prefix_run e n ops = impl_run e n ops.
 Proof.
-  intros H. unfold run. f_equal. apply run_ops_impl_eq; [apply login_quiet|exact H].
+  intros H. unfold prefix_run, impl_run, run. f_equal. apply run_ops_prefix_eq; [apply login_quiet|exact H].
 Qed.
 
-Theorem impl_histories_state_ok e n ops :
-  no_during ops -> Forall (fun o => state_ok n o = true) (run false e n ops).
-Proof. intros H. rewrite impl_eq_spec_off_trigger by exact H. apply spec_histories_state_ok. Qed.
+Theorem prefix_histories_state_ok e n ops :
+  no_during ops -> Forall (fun o => state_ok n o = true) (prefix_run e n ops).
+Proof. intros H. rewrite prefix_eq_impl_off_trigger by exact H. apply (spec_histories_state_ok e n ops). Qed.
+
+(* today's code is the specification on sequential histories *)
+Lemma seq_impl_is_spec : impl_run = spec_run.
+Proof. reflexivity. Qed.
 
 (* refusals have no side effects in the specification ... *)
 Theorem spec_refusal_no_side_effect e t s r :
@@ -474,11 +478,11 @@ Theorem spec_refusal_no_side_effect e t s r :
   connect_raw true e t s = (s, r) /\ connect_ind e t s = (s, RFalse).
 Proof. intros H. unfold connect_raw, connect_ind. rewrite H. split; reflexivity. Qed.
 
-(* ... but not in the code (finding C16-2): the history observed on the real proxy *)
+(* ... but not in the code before fix 8f6edb6 (finding C16-2): the history observed on the real proxy *)
 Definition ex_env : env := mkEnv FamA [0] [[]; []; []; repeat BStall 8].
 Definition ex_ops : list op := [ODuring 3 [(false, 1); (false, 2)]].
 
-Theorem impl_refusal_side_effect_refuted :
+Theorem prefix_refusal_side_effect_refuted :
   map o_res (run false ex_env 4 ex_ops) = [[RNone]; [RInProgress; RSuccess; RErr]] /\
   history_ok ex_env 4 ex_ops (run false ex_env 4 ex_ops) = false /\
   map o_res (run true ex_env 4 ex_ops) = [[RNone]; [RInProgress; RInProgress; RErr]] /\
@@ -511,7 +515,7 @@ Proof. intros H. apply recover_quiet; [exact H|apply need_le_fuel]. Qed.
 
 (* ---------- C. concurrent requests: all schedules (Base/Conc.v) ---------- *)
 
-Definition idle_pc (n : nat) : Prop := n = 0 \/ n = 4.
+Definition idle_pc (n : nat) : Prop := n = 0 \/ n = 1 \/ n = 4.
 
 (* the shape of the shared state of the specification threads *)
 Inductive cinv (c : cst) : Prop :=
@@ -550,7 +554,7 @@ Lemma upd_other k x f j : j <> k -> upd k x f j = f j.
 Proof. unfold upd. intros H. destruct (Nat.eqb_spec j k); [contradiction|reflexivity]. Qed.
 
 Lemma idle_not_2 n : idle_pc n -> n <> 2 /\ n <> 3.
-Proof. intros [->| ->]; split; discriminate. Qed.
+Proof. intros [->|[->| ->]]; split; discriminate. Qed.
 
 Lemma fresh_open t s :
   fresh s ->
@@ -567,12 +571,14 @@ Qed.
 Lemma check_set_preserves k t c : cinv c -> cinv (fst (a_check_set k t c)).
 Proof.
   intros Hc. unfold a_check_set.
-  destruct (Nat.eqb_spec (l_pc (c_loc c k)) 0) as [Hpc|Hpc]; [|exact Hc].
+  destruct ((l_pc (c_loc c k) =? 0) || (l_pc (c_loc c k) =? 1)) eqn:Hg; [|exact Hc].
+  assert (Hpc : l_pc (c_loc c k) = 0 \/ l_pc (c_loc c k) = 1).
+  { apply orb_true_iff in Hg. destruct Hg as [H|H]; apply Nat.eqb_eq in H; auto. }
   destruct Hc as [Ha Hidle Hfl Hop Hli Hfr | k' cn Ha Hp Hcn Hidle Hfl Hop Hli Hnin Hfr
                  | k' cn ex Ha Hp Hcn Hex Hidle Hfl Hcur Hop Hli Hnin Hfr].
   - destruct (check_server (c_st c) t) as [r|] eqn:Ec; cbn [fst].
     + apply CIdle; cbn [c_active c_loc c_st]; auto.
-      intros j. destruct (Nat.eq_dec j k) as [->|Hj]; [rewrite upd_same; right; reflexivity|].
+      intros j. destruct (Nat.eq_dec j k) as [->|Hj]; [rewrite upd_same; right; right; reflexivity|].
       rewrite upd_other by assumption. apply Hidle.
     + destruct (fresh_open t (c_st c) Hfr) as [Hfr' Hnew].
       unfold open_conn in *. cbn [fst] in *.
@@ -585,20 +591,20 @@ Proof.
       * intros j Hj. rewrite upd_other by assumption. apply Hidle.
       * now rewrite Hop.
       * now rewrite <- Hop.
-  - assert (Hk : k <> k') by (intros ->; congruence).
+  - assert (Hk : k <> k') by (intros ->; destruct Hpc; congruence).
     unfold check_server. rewrite Hfl. cbn [fst].
     apply (CFlight _ k' cn); cbn [c_active c_loc c_st]; auto.
     + now rewrite upd_other by auto.
     + now rewrite upd_other by auto.
-    + intros j Hj. destruct (Nat.eq_dec j k) as [->|Hjk]; [rewrite upd_same; right; reflexivity|].
+    + intros j Hj. destruct (Nat.eq_dec j k) as [->|Hjk]; [rewrite upd_same; right; right; reflexivity|].
       rewrite upd_other by assumption. apply Hidle, Hj.
-  - assert (Hk : k <> k') by (intros ->; congruence).
+  - assert (Hk : k <> k') by (intros ->; destruct Hpc; congruence).
     unfold check_server. rewrite Hfl. cbn [fst].
     apply (CJoin _ k' cn ex); cbn [c_active c_loc c_st]; auto.
     + now rewrite upd_other by auto.
     + now rewrite upd_other by auto.
     + now rewrite upd_other by auto.
-    + intros j Hj. destruct (Nat.eq_dec j k) as [->|Hjk]; [rewrite upd_same; right; reflexivity|].
+    + intros j Hj. destruct (Nat.eq_dec j k) as [->|Hjk]; [rewrite upd_same; right; right; reflexivity|].
       rewrite upd_other by assumption. apply Hidle, Hj.
 Qed.
 
@@ -646,7 +652,7 @@ Proof.
     rewrite Hfin.
     apply CIdle; cbn [c_active c_loc c_st cur flight lists opened olist map]; auto.
     + rewrite Ha. cbn. now rewrite Nat.eqb_refl.
-    + intros j. destruct (Nat.eq_dec j k') as [->|Hj]; [rewrite upd_same; right; reflexivity|].
+    + intros j. destruct (Nat.eq_dec j k') as [->|Hj]; [rewrite upd_same; right; right; reflexivity|].
       rewrite upd_other by assumption. apply Hidle, Hj.
     + intros x [<-|[]]. cbn. apply (Hfr cn). cbn. now left.
 Qed.
@@ -682,6 +688,68 @@ Proof.
   - intros c [<-|[]]. cbn. lia.
 Qed.
 
+(* today's code: the unlocked preliminary checks only move a request that holds nothing *)
+Lemma check_preserves k t c : cinv c -> cinv (fst (a_check k t c)).
+Proof.
+  intros Hc. unfold a_check.
+  destruct ((l_pc (c_loc c k) =? 0) || (l_pc (c_loc c k) =? 1)) eqn:Hg; [|exact Hc].
+  assert (Hpc : l_pc (c_loc c k) = 0 \/ l_pc (c_loc c k) = 1).
+  { apply orb_true_iff in Hg. destruct Hg as [H|H]; apply Nat.eqb_eq in H; auto. }
+  set (l' := match check_server (c_st c) t with Some _ => mkLocal 4 None None | None => mkLocal 1 None None end).
+  assert (Hl' : idle_pc (l_pc l')) by (unfold l'; destruct (check_server (c_st c) t); [right; right|right; left]; reflexivity).
+  assert (Heq : fst (match check_server (c_st c) t with
+              | Some r => (mkCst (c_st c) (upd k (mkLocal 4 None None) (c_loc c)) (c_active c), [(k, r)])
+              | None => (mkCst (c_st c) (upd k (mkLocal 1 None None) (c_loc c)) (c_active c), [])
+              end) = mkCst (c_st c) (upd k l' (c_loc c)) (c_active c))
+    by (unfold l'; destruct (check_server (c_st c) t); reflexivity).
+  rewrite Heq. clear Heq.
+  destruct Hc as [Ha Hidle Hfl Hop Hli Hfr | k' cn Ha Hp Hcn Hidle Hfl Hop Hli Hnin Hfr
+                 | k' cn ex Ha Hp Hcn Hex Hidle Hfl Hcur Hop Hli Hnin Hfr].
+  - apply CIdle; cbn [c_active c_loc c_st]; auto.
+    intros j. destruct (Nat.eq_dec j k) as [->|Hj]; [rewrite upd_same; exact Hl'|].
+    rewrite upd_other by assumption. apply Hidle.
+  - assert (Hk : k <> k') by (intros ->; destruct Hpc; congruence).
+    apply (CFlight _ k' cn); cbn [c_active c_loc c_st]; auto.
+    + now rewrite upd_other by auto.
+    + now rewrite upd_other by auto.
+    + intros j Hj. destruct (Nat.eq_dec j k) as [->|Hjk]; [rewrite upd_same; exact Hl'|].
+      rewrite upd_other by assumption. apply Hidle, Hj.
+  - assert (Hk : k <> k') by (intros ->; destruct Hpc; congruence).
+    apply (CJoin _ k' cn ex); cbn [c_active c_loc c_st]; auto.
+    + now rewrite upd_other by auto.
+    + now rewrite upd_other by auto.
+    + now rewrite upd_other by auto.
+    + intros j Hj. destruct (Nat.eq_dec j k) as [->|Hjk]; [rewrite upd_same; exact Hl'|].
+      rewrite upd_other by assumption. apply Hidle, Hj.
+Qed.
+
+Lemma impl_actions k0 ts a :
+  In a (concat (requests impl_request k0 ts)) ->
+  exists k t, a = a_check k t \/ a = a_check_set k t \/ a = a_join1 k \/ a = a_join2 k.
+Proof.
+  revert k0. induction ts as [|t r IH]; intros k0 H; [destruct H|].
+  cbn in H. destruct H as [<-|[<-|[<-|[<-|[<-|H]]]]].
+  - exists k0, t. auto.
+  - exists k0, t. auto.
+  - exists k0, t. auto.
+  - exists k0, t. auto.
+  - exists k0, t. auto.
+  - apply (IH (S k0)). exact H.
+Qed.
+
+(* today's code, every number of concurrent requests, every target list, every schedule *)
+Theorem impl_invariant_all_schedules ts sched c0 :
+  cinv c0 ->
+  cinv (fst (fst (Conc.run (requests impl_request 0 ts) sched c0))).
+Proof.
+  apply (inv_all_schedules cinv).
+  intros a Ha s Hs. destruct (impl_actions _ _ _ Ha) as (k & t & [->|[->|[->| ->]]]).
+  - now apply check_preserves.
+  - now apply check_set_preserves.
+  - now apply join1_preserves.
+  - now apply join2_preserves.
+Qed.
+
 (* consequences of the invariant *)
 Lemma cinv_one_in_flight c : cinv c -> length (c_active c) <= 1.
 Proof. intros [Ha | k cn Ha | k cn ex Ha]; rewrite Ha; cbn; lia. Qed.
@@ -701,29 +769,36 @@ Proof.
     try (rewrite Ha in Hz; discriminate). auto.
 Qed.
 
-(* ----- the implementation: refuted by schedule ----- *)
+(* ----- the code BEFORE the fixes e5fee55 / 8f6edb6: refuted by schedule ----- *)
 
 Definition proj (r : cst * list (nat * res) * list (@thread cst (nat * res))) :=
   let c := fst (fst r) in
   (c_active c, option_map c_srv (cur (c_st c)), lists (c_st c), map c_srv (opened (c_st c)), snd (fst r)).
 
 (* two requests pass checkServer before either sets the slot: two attempts in flight *)
-Theorem impl_two_in_flight_refuted :
-  proj (Conc.run [impl_request 0 1; impl_request 1 2] [0; 0; 1; 1; 0; 1] start_cst)
+Theorem prefix_two_in_flight_refuted :
+  proj (Conc.run [prefix_request 0 1; prefix_request 1 2] [0; 0; 1; 1; 0; 1] start_cst)
   = ([1; 0], Some 0, [0], [2; 1; 0], []).
 Proof. vm_compute. reflexivity. Qed.
 
 (* ... and, run to completion, two live backend connections, the player in two lists, two Success *)
-Theorem impl_two_live_refuted :
-  proj (Conc.run [impl_request 0 1; impl_request 1 2] [0; 0; 1; 1; 0; 1; 0; 1; 0; 1; 0; 1] start_cst)
+Theorem prefix_two_live_refuted :
+  proj (Conc.run [prefix_request 0 1; prefix_request 1 2] [0; 0; 1; 1; 0; 1; 0; 1; 0; 1; 0; 1] start_cst)
   = ([], Some 2, [2; 1], [2; 1], [(0, RSuccess); (1, RSuccess)]).
 Proof. vm_compute. reflexivity. Qed.
 
 (* a refused request clears the slot of the running one: the third request is let in *)
-Theorem impl_refusal_starts_next_refuted :
-  proj (Conc.run [impl_request 0 1; impl_request 1 2; impl_request 2 2]
+Theorem prefix_refusal_starts_next_refuted :
+  proj (Conc.run [prefix_request 0 1; prefix_request 1 2; prefix_request 2 2]
             [0; 0; 0; 1; 1; 1; 1; 2; 2; 2] start_cst)
   = ([2; 0], Some 0, [0], [2; 1; 0], [(1, RInProgress)]).
+Proof. vm_compute. reflexivity. Qed.
+
+(* the same interleavings cannot hurt today's code: the second request is refused at
+   checkAndSetInFlight (instance of the general theorem) *)
+Example impl_same_schedule :
+  proj (Conc.run [impl_request 0 1; impl_request 1 2] [0; 0; 1; 1; 0; 1; 0; 1; 0; 1] start_cst)
+  = ([], Some 1, [1], [1], [(1, RInProgress); (0, RSuccess)]).
 Proof. vm_compute. reflexivity. Qed.
 
 (* the same schedules cannot hurt the specification (instances of the general theorem) *)
